@@ -18,7 +18,33 @@ fn flooding(r: &mut crate::rng::Rng) -> String {
     }
 }
 
+/// the C entry points work on the same interpreter: a push that the stack limit refuses fails (repair a0b17ea: it used
+/// to abort the process), leaves the stack as it was, and works again once the limit is raised
+fn c_api_push_at_the_limit(ctx: &mut Ctx) {
+    for limit in [0usize, 1, 2, 5] {
+        ctx.progress(&format!("C14 xeh_push x{} with set_stack_limit(Some({}))", limit + 3, limit));
+        let mut xs = Xstate::boot().unwrap();
+        xs.set_stack_limit(Some(limit)).unwrap();
+        let p = Box::into_raw(Box::new(xs));
+        let (depth, after_raise) = unsafe {
+            for i in 0..limit + 3 {
+                let _ = xeh::c_api::xeh_push(p, Box::into_raw(Box::new(Cell::Int(i as Xint))));
+            }
+            let depth = xeh::c_api::xeh_top_len(p);
+            (*p).set_stack_limit(Some(limit + 1)).unwrap();
+            let _ = xeh::c_api::xeh_push(p, Box::into_raw(Box::new(Cell::Int(99))));
+            let after = xeh::c_api::xeh_top_len(p);
+            xeh::c_api::xeh_close(p);
+            (depth, after)
+        };
+        ctx.check(depth == limit && after_raise == limit + 1, || format!("C14 xeh_push x{} with the stack limit at {}, then one more with the limit at {}", limit + 3, limit, limit + 1),
+            || format!("depth {} then {}", limit, limit + 1), || format!("depth {} then {}", depth, after_raise));
+        ctx.tag("c-api:push-at-the-stack-limit");
+    }
+}
+
 pub fn run(ctx: &mut Ctx) {
+    c_api_push_at_the_limit(ctx);
     let base = Xstate::boot().unwrap();
     let cfg = GenCfg { endless: true, ..GenCfg::default() };
     let mut n_done = 0;
